@@ -1,6 +1,7 @@
 use std::{
     fs,
     io::{self, IsTerminal, Read, Write},
+    path::Path,
     process::exit,
 };
 
@@ -187,6 +188,48 @@ fn format_hunk_range(start: Option<usize>, end: Option<usize>) -> String {
     }
 }
 
+/// Replace `path` with `contents` without ever exposing a truncated or partially written file:
+/// the new content goes to a temporary file in the same directory, is synced, and is then renamed
+/// over the target. A crash or a failed write (full disk, file-size limit) leaves the original intact.
+fn write_file_atomically(path: &Path, contents: &str) -> io::Result<()> {
+    // Resolve symlinks so that the link itself is kept and the file it points to is replaced.
+    let target = fs::canonicalize(path)?;
+    let dir = target.parent().unwrap_or_else(|| Path::new("."));
+    let file_name = target
+        .file_name()
+        .map(|name| name.to_string_lossy().into_owned())
+        .unwrap_or_default();
+    let permissions = fs::metadata(&target)?.permissions();
+
+    let mut attempt = 0u32;
+    let (tmp_path, mut tmp_file) = loop {
+        let candidate = dir.join(format!(
+            ".{file_name}.luafmt-{}-{attempt}.tmp",
+            std::process::id()
+        ));
+        match fs::OpenOptions::new()
+            .write(true)
+            .create_new(true)
+            .open(&candidate)
+        {
+            Ok(file) => break (candidate, file),
+            Err(err) if err.kind() == io::ErrorKind::AlreadyExists && attempt < 16 => attempt += 1,
+            Err(err) => return Err(err),
+        }
+    };
+
+    let result = tmp_file
+        .write_all(contents.as_bytes())
+        .and_then(|()| tmp_file.set_permissions(permissions))
+        .and_then(|()| tmp_file.sync_all());
+    drop(tmp_file);
+    let result = result.and_then(|()| fs::rename(&tmp_path, &target));
+    if result.is_err() {
+        let _ = fs::remove_file(&tmp_path);
+    }
+    result
+}
+
 fn main() {
     let args = cmd_args::CliArgs::parse();
     let diff_render_options = DiffRenderOptions {
@@ -332,7 +375,7 @@ fn main() {
                         }
                     }
                 } else if args.write {
-                    if changed && let Err(e) = fs::write(path, formatted) {
+                    if changed && let Err(e) = write_file_atomically(path, &formatted) {
                         eprintln!("Failed to write {}: {e}", path.to_string_lossy());
                         exit_code = 2;
                     }
